@@ -1300,7 +1300,8 @@ def run(res, tier):
     bm_name = check_bitmask(res, unit)
     wrappers, npol = polarity_sites(res, unit, bm_name)
     if not wrappers:
-        raise AnalysisError("no bodyflex-level wrapper of the bitmask filter (canCollide2) found")
+        # the bodyflex-level pre-filter is an optimisation (the leaf filters decide); a tree without it has no wrapper to judge
+        res.extra["bodyflex_level_wrapper"] = "absent"
     check_add_pair(res, unit)
     check_body_pair(res, unit)
 
